@@ -57,22 +57,26 @@ type Violation struct {
 
 // Result is one JSON line per executed plan.
 type Result struct {
-	Property    string         `json:"property"`
-	Seed        uint64         `json:"seed"`
-	PlanDigest  string         `json:"plan_digest"`
-	TraceDigest string         `json:"trace_digest"`
-	CoarseSig   string         `json:"coarse_sig,omitempty"`
-	Verdict     string         `json:"verdict"` // ok | violation | error
-	Violations  []Violation    `json:"violations,omitempty"`
-	Error       string         `json:"error,omitempty"`
-	SimTimeMs   int64          `json:"sim_ms"`
-	WallMs      int64          `json:"wall_ms"`
-	Ops         int            `json:"ops"`
-	Steps       int            `json:"steps"`
-	Faults      map[string]int `json:"faults,omitempty"`
-	Probes      map[string]int `json:"probes,omitempty"`
-	Nontrivial  bool           `json:"nontrivial"`
-	Events      int            `json:"events"`
+	Property    string `json:"property"`
+	Seed        uint64 `json:"seed"`
+	PlanDigest  string `json:"plan_digest"`
+	TraceDigest string `json:"trace_digest"`
+	CoarseSig   string `json:"coarse_sig,omitempty"`
+	Verdict     string `json:"verdict"` // ok | violation | error | abandoned
+	// Abandoned: the plan used up its real-time budget and was ended at a step
+	// boundary (what the oracles had recorded by then stands, so the verdict can
+	// still be "violation"); where it ended depends on the machine.
+	Abandoned  string         `json:"abandoned,omitempty"`
+	Violations []Violation    `json:"violations,omitempty"`
+	Error      string         `json:"error,omitempty"`
+	SimTimeMs  int64          `json:"sim_ms"`
+	WallMs     int64          `json:"wall_ms"`
+	Ops        int            `json:"ops"`
+	Steps      int            `json:"steps"`
+	Faults     map[string]int `json:"faults,omitempty"`
+	Probes     map[string]int `json:"probes,omitempty"`
+	Nontrivial bool           `json:"nontrivial"`
+	Events     int            `json:"events"`
 	// SchedDigest hashes the order in which the Go scheduler ran goroutines during
 	// the plan (goroutine ids are assigned in creation order, which is itself part
 	// of the schedule); SchedSteps is the number of scheduling decisions.
